@@ -411,8 +411,11 @@ def run(ctx):
     pi = ctx.impl("pconstraint", ctable.impl_args(pc))
     pm = ctable.run_model(ctx, tables, "pconstraint", pc)
     ctx.count("corr:pconstraint", len(pc))
+    def proj(line):
+        # C03 observes accept/reject and IsSimple, not the internal spans
+        return line if not line.startswith('("ok"') else repr(parse_sx(line)[1])
     for c, i, m in zip(cases, pi, pm):
-        if i != m and '"oom"' not in m:
+        if i != m and '"oom"' not in m and proj(i) != proj(m):
             nd += 1
             if nd <= 40:
                 ctx.divergence("pconstraint", {"system": NAMES[c["sys"]], "requirement": c["text"]}, i[:1500], m[:1500])
